@@ -22,7 +22,8 @@ def q_suite(profile, n_quick, n_thorough, variants_quick, variants_thorough, rul
                 exes.append((v.name, path, v))
         if not exes:
             return
-        ctx.rule = rule
+        if rule:
+            ctx.rule = (ctx.rule + " | " if ctx.rule else "") + rule
         rng = random.Random("%d/%s/%s" % (ctx.seed, ctx.prop, profile))
         scripts = suiterun.load_corpus(ctx.prop, prefix="q_")
         for i in range(n):
@@ -65,27 +66,36 @@ register(
 
 register(
     "C04",
-    lean_modules=["EventppVerif.Properties.C04"],
+    lean_modules=["EventppVerif.Properties.C04", "EventppVerif.Properties.C04bridge"],
+    fragments=["DispatchFrag"],
     theorems=[],
     suites=[q_suite("dispatch", 300, 6000,
-                    [V("single", 1, 1, 0, 0), V("multi", 0, 0, 1, 0), V("single", 1, 1, 0, 0, cxx="clang++-14")],
                     [V("single", 1, 1, 0, 0), V("multi", 0, 0, 1, 0), V("single", 1, 1, 0, 0, cxx="clang++-14"),
-                     V("single", 1, 1, 1, 0, opt="-O2"), V("multi", 1, 0, 0, 0, std="c++11"), V("spin", 0, 1, 0, 0, cxx="clang++-14", opt="-O2")],
+                     V("single", 0, 0, 0, 0, getevent=1), V("single", 1, 1, 0, 0, getevent=1, mapk=1)],
+                    [V("single", 1, 1, 0, 0), V("multi", 0, 0, 1, 0), V("single", 1, 1, 0, 0, cxx="clang++-14"),
+                     V("single", 1, 1, 1, 0, opt="-O2"), V("multi", 1, 0, 0, 0, std="c++11"), V("spin", 0, 1, 0, 0, cxx="clang++-14", opt="-O2"),
+                     V("single", 0, 0, 0, 0, getevent=1), V("single", 1, 1, 0, 0, getevent=1, mapk=1),
+                     V("multi", 1, 0, 0, 0, getevent=1, cxx="clang++-14"), V("single", 0, 1, 1, 0, getevent=1, std="c++11")],
                     rule="random listener-management / dispatch histories over 1-4 event keys (int keys and std::string keys longer than SSO), "
-                         "both argument-passing forms (event included in the prototype or not), prototype by value / const reference, g++ and clang++ "
+                         "both argument-passing forms (event included in the prototype or not; auto-detected, and explicit ArgumentPassingInclude/ExcludeEvent "
+                         "with a user getEvent policy that maps a raw key to the event and takes its parameters by value), hashed and ordered maps, "
+                         "prototype by value / const reference, g++ and clang++ "
                          "(the two argument evaluation orders); distinct = distinct canonical output; non-trivial = >=2 listener calls and an inert (false) management result",
                     nontrivial=nt_dispatch)],
 )
 
 register(
     "C12",
-    lean_modules=["EventppVerif.Properties.C12"],
+    lean_modules=["EventppVerif.Properties.C12", "EventppVerif.Properties.C12cl"],
     theorems=[],
     suites=[q_suite("filter", 300, 6000,
-                    [V("single", 0, 0, 0, 0), V("multi", 1, 1, 0, 0)],
-                    [V("single", 0, 0, 0, 0), V("multi", 1, 1, 0, 0), V("single", 0, 1, 1, 0), V("spin", 1, 0, 0, 0, cxx="clang++-14")],
+                    [V("single", 0, 0, 0, 0), V("multi", 1, 1, 0, 0), V("single", 1, 1, 0, 0, cci=1), V("single", 0, 0, 0, 0, cci=1, getevent=1)],
+                    [V("single", 0, 0, 0, 0), V("multi", 1, 1, 0, 0), V("single", 0, 1, 1, 0), V("spin", 1, 0, 0, 0, cxx="clang++-14"),
+                     V("single", 1, 1, 0, 0, cci=1), V("single", 0, 0, 0, 0, cci=1, getevent=1), V("multi", 0, 0, 1, 0, cci=1, cxx="clang++-14"),
+                     V("single", 0, 1, 0, 1, cci=1, std="c++11")],
                     rule="random histories of filter / listener additions and removals with direct and queued dispatches; filters rewrite the argument "
-                         "(by-value prototype) and block by script; distinct = distinct canonical output; non-trivial = >=2 filter calls and >=1 listener call",
+                         "(by-value prototype) and block by script; variants with a canContinueInvoking policy (parameters by value; per script `cfg cci M R`: "
+                         "continue iff value % M != R, evaluated by the model on the possibly rewritten argument); distinct = distinct canonical output; non-trivial = >=2 filter calls and >=1 listener call",
                     nontrivial=nt_filter)],
 )
 
